@@ -18,7 +18,7 @@ LEVEL_TEXT = ('in every crash state every payload still under files/ must still 
 LEVEL_NOTE = 'crash = process kill between two system calls; trusted: shim trace completeness for mutating calls'
 RULE = ('scenarios: entry kinds {file, deep dir, symlink->dir} x {1, 3 entries (+ a hand-written entry named n.trashinfo.bak for the purging commands)} x command {restore same volume, restore cross-volume, restore --overwrite onto an existing directory, empty, empty 0, empty -i (re-run with -i too), empty with two --trash-dir options, rm *} + two trashed links to one directory (+ restore --overwrite, multi-index '
         'restores in thorough); crash before each mutating syscall + after the last; non-trivial = crash state differs from initial state; distinct = (command, kind, count, operation at death)')
-CMDS = ['restore', 'restore-xvol', 'empty', 'empty0', 'rm-star', 'empty-i', 'restore-overwrite-dir', 'empty-2td']
+CMDS = ['restore', 'restore-xvol', 'empty', 'empty0', 'rm-star', 'empty-i', 'restore-overwrite-dir', 'empty-2td', 'restore-td']
 T2 = '/home/u/T2'
 TD = scen.HOME_TRASH
 
@@ -100,7 +100,8 @@ def command(s, ctx):
     env = dict(HOME='/home/u')
     if c.startswith('restore'):
         reply = '0-%d' % (s['n'] - 1) if (c == 'restore-multi' and s['n'] > 1) else '0'
-        argv = ['trash-restore', '--sort', 'date'] + (['--overwrite'] if c in ('restore-overwrite', 'restore-overwrite-dir') else []) + ['/']
+        argv = ['trash-restore', '--sort', 'date'] + (['--overwrite'] if c in ('restore-overwrite', 'restore-overwrite-dir') else []) + \
+            (['--trash-dir', '../home/u/.local/share/Trash'] if c == 'restore-td' else []) + ['/']          # (restore-td: the trash directory named explicitly, relative to /)
         return {'argv': argv, 'stdin': reply + '\n', 'cwd': '/', 'env': env}
     argv = {'empty': ['trash-empty'], 'empty0': ['trash-empty', '0'], 'rm-star': ['trash-rm', '*'], 'empty-i': ['trash-empty', '-i'],
             'empty-2td': ['trash-empty', '--trash-dir', TD, '--trash-dir', T2]}[c]
